@@ -1725,6 +1725,7 @@ def normalize(modules) -> Report:
     n2.propagate_fresh_locals(modules, known, rep)
     n2.expand_augassign(modules, known, rep)
     n2.expand_bool_accumulate(modules, known, rep)
+    n2.expand_flag_from_test(modules, known, rep)
     n2.thread_constant_flags(modules, known, rep)
     n2.thread_none_sentinels(modules, known, rep)
     n2.resolve_conditional_joins(modules, known, rep)
